@@ -28,15 +28,23 @@ def run_harness(h, tier):
     args = ["cargo", "kani", "--target-dir", TARGET, "--harness", h["name"]] + h.get("args", [])
     env = dict(os.environ); env["CARGO_NET_OFFLINE"] = "true"
     t0 = time.time()
+    # the harness runs in a process group of its own, so that a timeout ends exactly ITS compiler / solver processes (another check may be running Kani at the same time)
+    import signal
+    proc = subprocess.Popen(args, cwd=REPO, env=env, stdout=subprocess.PIPE, stderr=subprocess.STDOUT, text=True, start_new_session=True)
     try:
-        p = subprocess.run(args, cwd=REPO, env=env, capture_output=True, text=True, timeout=timeout)
-        out = p.stdout + p.stderr
-        rc = p.returncode
-    except subprocess.TimeoutExpired as e:
-        out = ((e.stdout or b"").decode("utf-8", "replace") if isinstance(e.stdout, bytes) else (e.stdout or "")) + "\nTIMEOUT"
+        out, _ = proc.communicate(timeout=timeout)
+        rc = proc.returncode
+    except subprocess.TimeoutExpired:
+        try:
+            os.killpg(proc.pid, signal.SIGKILL)
+        except OSError:
+            pass
+        try:
+            out, _ = proc.communicate(timeout=30)
+        except Exception:
+            out = ""
+        out = (out or "") + "\nTIMEOUT"
         rc = -9
-        # make sure no solver keeps running
-        subprocess.run(["pkill", "-f", "cbmc --no-malloc"], capture_output=True)
     open(log, "w").write(out)
     res = dict(name=h["name"], function=h["function"], label=h["label"], complete=h.get("complete", False), bound=h.get("bound", "none"),
                src=h.get("src"), time_s=round(time.time() - t0, 1), log=log)
@@ -62,6 +70,9 @@ def run_harness(h, tier):
     real = [f for f in failed if f not in unsupported]
     if unsupported and not real:
         res["status"] = "UNSUPPORTED"; return res
+    if not real:
+        # "VERIFICATION:- FAILED" without a single failed check is the solver ending abnormally (killed, out of memory): no verdict, never an alarm
+        res["status"] = "NO-RESULT"; res["detail"] = "VERIFICATION FAILED without a failed check (solver ended abnormally?): " + out[-400:]; return res
     res["status"] = "FAILED"
     # concrete counterexample: rerun with concrete playback printing
     try:
